@@ -40,7 +40,7 @@ FORMS = {
 HAS_R = {k: any(p[0] == 'lit' and any('R' in a.upper().replace('NORTH', '').replace('TOWNSHIP', '') for a in p[1]) for p in v[2:]) for k, v in FORMS.items()}
 
 
-def _segs(form, ctx_k, drop=(), cases=True):
+def _segs(form, ctx_k, drop=(), cases=True, ocr=False):
     """template segments for a form inside contexts; drop: subset of {'D','E'} to leave a direction out"""
     from engine.matcher import WORD
     from engine.templates import Alt, Digits, Fill
@@ -49,9 +49,9 @@ def _segs(form, ctx_k, drop=(), cases=True):
         if p[0] == 'lit':
             segs.append(Alt(f'l{i}', p[1], cases=cases))
         elif p[0] == 'n':
-            segs.append(Digits('n', 1, 3, no_leading_zero=True))
+            segs.append(Fill('n', '0123456789SOIl', 1, 3) if ocr else Digits('n', 1, 3, no_leading_zero=True))
         elif p[0] == 'm':
-            segs.append(Digits('m', 1, 3, no_leading_zero=True, not_value=None if HAS_R[form] else '2'))
+            segs.append(Fill('m', '0123456789SOIl', 2, 3) if ocr else Digits('m', 1, 3, no_leading_zero=True, not_value=None if HAS_R[form] else '2'))
         elif p[0] in ('D', 'E'):
             if p[0] in drop:
                 continue
@@ -88,7 +88,7 @@ def ob_m_spelling(ob):
     if bad:
         return result('error', notes=[f'translator validation {bad[:2]}'], validated=tot)
     T = Text(N)
-    tpl = Template(_segs(form, K, drop), T)
+    tpl = Template(_segs(form, K, drop, cases=not ob.params.get('ocr', False), ocr=ob.params.get('ocr', False)), T)
     M = Matcher(pat, T)
     first, last = _first_last(form, drop)
     sol = z3.Solver()
@@ -138,6 +138,12 @@ def ob_m_spelling(ob):
     d = tpl.describe(sol.model())
     spelled = w[d[first][0]:d[last][1]]
     key = f'twprge-spelling:{pname}:{form}' + (':missing-' + '-'.join(drop) if drop else '')
+    if ob.params.get('ocr', False):
+        tr = {'S': '5', 's': '5', 'O': '0', 'I': '1', 'l': '1', 'L': '1'}
+        conv = lambda x: str(int(''.join(tr.get(c, c) for c in x)))
+        return result('violated', violations=[violation(key + ':ocr', f'{pname} on {w!r}: the OCR-damaged spelling {spelled!r} is not matched with groups on its fields', 'c08_api',
+                                                        {'text': w + ' Sec 14: NE/4', 'default_ns': None, 'default_ew': None, 'ocr': True,
+                                                         'expect': f'T{conv(w[d["n"][0]:d["n"][1]])}{w[d["D"][0]:d["D"][1]][0].upper()}-R{conv(w[d["m"][0]:d["m"][1]])}{w[d["E"][0]:d["E"][1]][0].upper()}'})], **info)
     return result('violated', violations=[violation(key, f'{pname} on {w!r}: the spelling {spelled!r} is not matched as a whole with groups on its '
                                                          f'fields' if expect_match else f'{pname} matches inside {spelled!r} in {w!r}', 'c08_spelling',
                                                     {'text': w, 'spelled': spelled, 'n': w[d['n'][0]:d['n'][1]], 'm': w[d['m'][0]:d['m'][1]],
@@ -367,6 +373,11 @@ def obligations(tier):
         obs.append(Ob(f'm_nomatch_{"".join(drop)}_{short}', 'M', ob_m_spelling, f'twprge_regex does not claim {form!r} without {drop}', functions=['twprge_regex'],
                       weight=6, timeout=4000, params={'form': form, 'pattern': 'twprge_regex', 'drop': drop, 'expect_match': False, 'K': 2,
                                                       'N': 28 if len(form) < 20 else 46, 'cap': 1500}))
+    for form in ('T154N-R97W', 'T154N R97W', 'Township 154 North, Range 97 West'):
+        short = form.replace(' ', '_').replace('.', '').replace(',', '')
+        obs.append(Ob(f'm_ocr_{short}', 'M', ob_m_spelling, f'pp_twprge_ocr_scrub on {form!r} with OCR look-alikes in the numbers: groups on fields',
+                      functions=['pp_twprge_ocr_scrub'], weight=9, timeout=4000,
+                      params={'form': form, 'pattern': 'pp_twprge_ocr_scrub', 'K': 2, 'N': 24 if len(form) < 20 else 44, 'cap': 1500, 'ocr': True}))
     for which in ('twp', 'rge'):
         obs.append(Ob(f's_unpack_values_{which}', 'S', ob_s_unpack, f'unpack_twprge ({which}): leading zeros, explicit direction kept, defaults only for absent groups, OCR letters',
                       functions=['unpack_twprge', 'ocr_scrub_alpha_to_num'], weight=6, timeout=3000, params={'cap': 2700, 'which': which}))
